@@ -28,6 +28,9 @@ def gen_cases(tier):
             if s not in strings:
                 strings.append(s)
         out.append({"id": i + 1, "rel": rel, "strings": strings, "malformed": [gram.MALFORM[(i + j) % len(gram.MALFORM)](strings[0]) for j in range(1 if tier == "quick" else 2)]})
+        if i % 10 == 0:
+            # strings that differ only by a blank but mean different things, parsed one after the other
+            out[-1]["confusable"] = gram.confusable(rng)
     return out
 
 
@@ -125,6 +128,14 @@ def run_case(case):
               "hints": {"wit": dict(H.NONE), "regions": {}}, "groups": ["parse"]}
         if oc == "rows" and all(r["_ok"] for r in rows):
             ev["hints"] = gram.parse_hints(rel, rows, ev["names"])
+        evs.append(ev)
+    for rel2, s in case.get("confusable", []):
+        oc, rows = parse_once(s)
+        names2 = gram.rel_vars(rel2)
+        ev = {"kind": "parse", "string": s, "rel": rel2, "outcome": oc, "rows": rows, "rows2": rows, "names": sorted(set(names2) | {v for r in rows for v in r["co"]}),
+              "siblings": [], "hints": {"wit": dict(H.NONE), "regions": {}}, "groups": ["parse"]}
+        if oc == "rows" and all(r["_ok"] for r in rows):
+            ev["hints"] = gram.parse_hints(rel2, rows, ev["names"])
         evs.append(ev)
     for s in case["malformed"]:
         oc, rows = parse_once(s)
